@@ -93,9 +93,10 @@ def build_stack(w):
     if kind in ("x", "y", "source", "target"):
         cls = {"x": W.XTransformWrapper, "y": W.YTransformWrapper, "source": W.SourceTransformWrapper, "target": W.TargetTransformWrapper}[kind]
         # the documented signatures are (dataset, transform | configs | transforms, seed): half of the wrappers are built positionally
-        ds = cls(base, treg.build(w["t"]), seed) if w.get("call") == "positional" else cls(base, transform=treg.build(w["t"]), seed=seed)
+        tr = treg.for_wrapper(w["t"], bool(w.get("factory")))  # an object, or its description as configuration files give it
+        ds = cls(base, tr, seed) if w.get("call") == "positional" else cls(base, transform=tr, seed=seed)
     elif kind == "multiview":
-        cfg_objs = [(c["n_views"], PlainCallable() if c["t"] == "plain" else treg.build(c["t"])) for c in w["configs"]]
+        cfg_objs = [(c["n_views"], PlainCallable() if c["t"] == "plain" else treg.build(c["t"], factory=bool(w.get("factory")))) for c in w["configs"]]
         ds = W.KDMultiViewWrapper(base, cfg_objs, seed) if w.get("call") == "positional" else W.KDMultiViewWrapper(base, configs=cfg_objs, seed=seed)
         # what the caller still holds - kept outside the dataset's object graph (it is not part of the dataset: C09 walks everything
         # reachable from a dataset and would otherwise judge the caller's untouched originals as worker state)
@@ -346,7 +347,8 @@ def wrapper_spec(draw, tier):
                                  "minaug_x", "minaug_mv"] + (["byol", "mugs"] if tier == "thorough" else [])))
     w = {"kind": kind, "n": draw(st.integers(2, 7)), "key": draw(st.integers(0, 99)), "seed": draw(st.integers(0, 2 ** 31)),
          "pos": draw(st.sampled_from(["top", "under_pass", "over_subset", "under_subset"])),
-         "seed_form": draw(st.sampled_from(["int", "int", "numpy"])), "call": draw(st.sampled_from(["keyword", "positional"]))}
+         "seed_form": draw(st.sampled_from(["int", "int", "numpy"])), "call": draw(st.sampled_from(["keyword", "positional"])),
+         "factory": draw(st.booleans())}
     if kind in ("x", "y", "source", "target"):
         w["t"] = draw(NOSCHED)
         w["fam"] = treg.family(w["t"])
